@@ -255,14 +255,23 @@ def check_withdraw(ctx, model):
             if o.kind == "closure" and o.a in model.fnsrc:
                 cv = model.view(o.a)
                 adds = [(xb, xt) for xb, xt in cv.calls_to(r"Uint128::checked_add$")]
-                rems = [(xb, xt) for xb, xt in cv.calls_to(r"^std::vec::Vec::remove$")]
-                ok = bool(adds) and bool(rems)
+                rems = [(xb, xt) for xb, xt in cv.calls_to(r"^std::vec::Vec::(remove|swap_remove)$")]
+                pops = [(xb, xt) for xb, xt in cv.calls_to(r"^std::vec::Vec::pop$")]
+                ok = bool(adds) and bool(rems or pops)
+                coks = ok_return_blocks(cv)
                 for ab, at_ in adds:
                     for rb, rt in rems:
                         # the remove follows the add on every path that continues the loop / returns Ok
-                        coks = ok_return_blocks(cv)
                         skip = cv.reachable(ab, cut_blocks=[rb])
                         ok = ok and must_pass_through(cv, ab, [rb]) and not (skip & set(coks))
+                    for pb, pt in pops:
+                        # `while let Some(p) = list.pop() { sum += p.amount }`: what is taken out is what is counted -- the
+                        # added amount is the popped entry's, and no popped entry escapes the addition
+                        from .common import body_always_passes
+                        with cv.opaque(r"^std::vec::Vec::pop$"):
+                            src = cv.origins_of_operand(at_["args"][1], at=cv.at_term(ab))
+                        from_pop = bool(src) and all(x.kind == "call" and x.a == "std::vec::Vec::pop" and x.b == "%s:bb%d" % (cv.path, pb) for x in src)
+                        ok = ok and from_pop and body_always_passes(cv, pb, ab, coks)
                     a1 = cv.origins_of_operand(at_["args"][1], at=cv.at_term(ab))
                     ok = ok and bool(a1) and all(x.proj and x.proj[-1] == "amount" for x in a1)
                 ctx.ob("C11-K4", "%s|add-and-remove-together" % WITHDRAW, ok,
